@@ -7,10 +7,11 @@ import sys, os, json, subprocess, hashlib, tempfile, shutil
 
 def main():
     fl, scen, out = sys.argv[1], sys.argv[2], sys.argv[3]
-    B = '/verif/.build/full/' + fl
+    VR = os.environ.get('VERIF_ROOT', '/verif')
+    B = VR + '/.build/full/' + fl
     CRYPT = B + '/apps/asconcrypt/asconcrypt'; SUM = B + '/apps/asconsum/asconsum'
-    SHIM = '/verif/.build/shim/shim.so'
-    work = tempfile.mkdtemp(prefix='toolrun', dir='/verif/.build')
+    SHIM = VR + '/.build/shim/shim.so'
+    work = tempfile.mkdtemp(prefix='toolrun', dir=VR + '/.build')
     env0 = dict(os.environ); env0.pop('LD_PRELOAD', None)
     env0['ASAN_OPTIONS'] = 'detect_leaks=0:exitcode=99'; env0['UBSAN_OPTIONS'] = 'halt_on_error=1:exitcode=98'
     def run(args, fault=None, stdin=None, cwd=None):
